@@ -413,7 +413,9 @@ func (c *creator) build() *Slim {
 
 	if *c.option.LeafPrefix {
 		ns.LeafPrefixes = &VLenArray{}
-		ns.LeafPrefixes.PresenceBM = newBM(c.leafPrefixIndexes, c.leafCnt, "r64")
+		// c.leafCnt only counts leaves with values; size the bitmap by the
+		// real number of leaves so that every leaf has a presence bit.
+		ns.LeafPrefixes.PresenceBM = newBM(c.leafPrefixIndexes, c.nodeCnt-innerCnt, "r64")
 		ns.LeafPrefixes.PositionBM = newBM(stepToPos(c.leafPrefixLens, 0), 0, "s32")
 		ns.LeafPrefixes.Bytes = c.leafPrefixes
 	}
